@@ -479,11 +479,16 @@ impl From<PartialResponse> for Response {
         } else {
             Decision::Deny
         };
-        Response::new(
-            decision,
-            p.must_be_determining().map(|p| p.id().clone()).collect(),
-            p.errors().collect(),
-        )
+        // Residuals are reported as errors below, so they cannot be determining: the
+        // determining policies are the satisfied forbids if there are any, and
+        // the satisfied permits otherwise (`must_be_determining()` also takes
+        // residual forbids into account, which would leave an `Allow` without reasons)
+        let reasons = if p.satisfied_forbids.is_empty() {
+            p.satisfied_permits.keys().cloned().collect()
+        } else {
+            p.satisfied_forbids.keys().cloned().collect()
+        };
+        Response::new(decision, reasons, p.errors().collect())
     }
 }
 
